@@ -142,8 +142,12 @@ def buildHead (input : Node) (hargs : List DL.HTerm) : Option Node :=
     | some ps => some (.map input (ps.map (·.1)) (ps.map (·.2)))
     | none => none
 
+def isNegLit : DL.Lit → Bool
+  | .neg _ => true
+  | _ => false
+
 def buildRule (r : DL.Rule) : Option Node :=
-  if r.body.any (fun | .neg _ => true | _ => false) then none else
+  if r.body.any isNegLit then none else
   match posAtoms 0 r.body with
   | [] => none
   | (bi, a) :: rest =>
